@@ -11,18 +11,23 @@ outside the window (and the idle inline buffer) holds the default item.  All the
 configuration `c` (default item, content of uninitialised memory, trivial/owning, inline capacity `sq`).
 The tie to the C++ code is the correspondence run of engine `q` (all 55 op kinds, not only the proved ones).
 
-Proved for all states satisfying the invariant (hence, by `history_refines_partial`, for all histories):
-add/remove at head and tail, get/replace at index, Clear with/without release, EnsureSize without
-set-size (any `extra`, with and without `allowShrink` under the hypothesis `n ≥ count`), Normalize
-(already-contiguous and rotation branches), and the no-stale facts below.
+Proved for all states satisfying `Good` (= `Inv` and, for owning item types, `Clean`), hence — by
+`history_refines_partial` — for all histories from a fresh Queue, for the 15 op kinds of `Op`:
+AddTail, AddHead, RemoveHead, RemoveTail, GetItemAt, ReplaceItemAt, Clear with/without release,
+EnsureSize(n, setNumItems, extra, allowShrink) on ALL paths (code as of /repo 97f299d: shrink guard,
+reallocation to the heap or back into the inline buffer, growth in place, shrinking), RemoveHeadMulti,
+RemoveTailMulti, AddTailMulti and AddHeadMulti from an array / another queue, operator=, CopyFrom, Swap;
+plus Normalize (already-contiguous and rotation branches).  `Clean` (no stale item outside the window) is
+part of the invariant that every one of these operations is proved to preserve.
 
 NOT proved (validated by the correspondence run and the `std::deque` oracle only) — full statement:
-  `∀ q, Inv c q → ∀ op : AnyOp, Inv c (step q op).1 ∧ abs (step q op).1 = (Spec.step (abs q) op).1 ∧ results equal`
-  for `op` ranging also over RemoveItemAt, InsertItemAt, InsertItemsAt, AddTailMulti/AddHeadMulti,
-  RemoveHeadMulti/RemoveTailMulti, EnsureSize(n, true), Swap, ReverseItemOrdering, Sort (as a stable sort),
-  RemoveAllInstancesOf/First/Last, RemoveSortedDuplicateItems, operator=/CopyFrom, SwapContents, Plunder, the
-  copy branch of Normalize; and `Clean` preserved by every one of them for owning item types, under the
-  hypotheses that exclude findings C16-D1..D4.
+  `∀ q, Good c q → ∀ op : AnyOp, Good c (step q op).1 ∧ abs (step q op).1 = (Spec.step (abs q) op).1 ∧ results equal`
+  for `op` ranging also over RemoveItemAt (the two shifting loops are proved: `shiftFromHead_spec`,
+  `shiftFromTail_spec` in QProofs.lean), InsertItemAt, InsertItemsAt, the self-aliased multi-item forms,
+  ReverseItemOrdering, Sort (as a stable sort), InsertItemAtSortedPosition, RemoveAllInstancesOf/First/Last,
+  RemoveSortedDuplicateItems/RemoveDuplicateItems, SwapContents, Plunder, the copy branch of Normalize,
+  the no-argument AddTailAndGet()/AddHeadAndGet(); under the hypotheses that exclude the open findings
+  C16-D3 (SwapContents, copy-only owning type) and C16-D4 (self-prepend).
 -/
 
 namespace Muscle.Props.C16
@@ -56,43 +61,62 @@ theorem step_kernels (head idx size : Nat) (hi : idx + 1 < size) (hh : head < si
 theorem empty_ok : Inv c (Ring.empty c) ∧ (Ring.empty c).abs c = [] :=
   ⟨inv_empty c, abs_of_count_zero c _ rfl⟩
 
-/-- Every proved operation keeps the invariant, commutes with the abstraction to the ideal sequence and
-    returns the same result.  (`_partial`: 8 of the op kinds, see the file comment for the full statement.) -/
-theorem ring_refines_partial (q : Ring α) (h : Inv c q) (op : Op α) :
-    Inv c (q.step c op).1 ∧ (q.step c op).1.abs c = (Spec.step (q.abs c) op).1 ∧
-    (q.step c op).2 = (Spec.step (q.abs c) op).2 :=
+/-- Every proved operation keeps the invariant (including, for owning item types, "every slot outside the
+    window and the idle inline buffer hold the default item"), commutes with the abstraction to the ideal
+    sequence and returns the same result.
+    (`_partial`: covers the 15 op kinds of `Op` — AddTail, AddHead, RemoveHead, RemoveTail, GetItemAt,
+    ReplaceItemAt, Clear(release), EnsureSize(n, setNum, extra, allowShrink) on all paths, RemoveHeadMulti,
+    RemoveTailMulti, AddTailMulti and AddHeadMulti (array / other queue), operator=, CopyFrom, Swap;
+    see the file comment for the op kinds that are not covered.) -/
+theorem ring_refines_partial (q : Ring α) (h : Good c q) (op : Op α) :
+    Good c (q.step c op).1 ∧ (q.step c op).1.abs c = (Spec.step c.dflt c.junk (q.abs c) op).1 ∧
+    (q.step c op).2 = (Spec.step c.dflt c.junk (q.abs c) op).2 :=
   step_refines c q h op
 
 /-- For every finite history of (proved) operations on a fresh Queue: the final content and every
-    result along the way are those of the ideal sequence. -/
+    result along the way are those of the ideal sequence, and the final state is `Good`. -/
 theorem history_refines_partial (ops : List (Op α)) :
-    ((Ring.empty c).exec c ops).1.abs c = (Spec.exec [] ops).1 ∧
-    ((Ring.empty c).exec c ops).2 = (Spec.exec [] ops).2 := by
-  have h := exec_refines c (Ring.empty c) (inv_empty c) ops
+    Good c ((Ring.empty c).exec c ops).1 ∧
+    ((Ring.empty c).exec c ops).1.abs c = (Spec.exec c.dflt c.junk [] ops).1 ∧
+    ((Ring.empty c).exec c ops).2 = (Spec.exec c.dflt c.junk [] ops).2 := by
+  have h := exec_refines c (Ring.empty c) (good_empty c) ops
   rw [(empty_ok c).2] at h
-  exact ⟨h.2.1, h.2.2⟩
+  exact h
 
 /-- Failure is reported exactly when the ideal operation is undefined (empty sequence, bad index), and a
-    failing call changes nothing — not even the hidden state. -/
+    failing call changes nothing — not even the hidden state.  (`_partial`: the 15 op kinds of `Op`.) -/
 theorem failure_exact_partial (q : Ring α) (op : Op α) :
     ((q.step c op).2 = .err ↔ Spec.undefined (q.abs c) op) ∧ ((q.step c op).2 = .err → (q.step c op).1 = q) :=
   step_failure c q op
 
 /-- What an operation shows afterwards depends only on what was visible before: two Queues with the same
-    visible content (whatever their capacity, head offset and hidden slots) stay indistinguishable. -/
-theorem hidden_state_invisible_partial (q q' : Ring α) (h : Inv c q) (h' : Inv c q') (e : q.abs c = q'.abs c) (op : Op α) :
+    visible content (whatever their capacity, head offset and hidden slots) stay indistinguishable.
+    (`_partial`: the 15 op kinds of `Op`.) -/
+theorem hidden_state_invisible_partial (q q' : Ring α) (h : Good c q) (h' : Good c q') (e : q.abs c = q'.abs c) (op : Op α) :
     (q.step c op).1.abs c = (q'.step c op).1.abs c ∧ (q.step c op).2 = (q'.step c op).2 := by
   have a := step_refines c q h op
   have b := step_refines c q' h' op
   rw [a.2.1, a.2.2, b.2.1, b.2.2, e]
   exact ⟨rfl, rfl⟩
 
-/-- `EnsureSize(n, false, extra, allowShrink)` never changes the content and (without shrink) leaves room for `n` items. -/
-theorem reserve_id (q : Ring α) (h : Inv c q) (n extra : Nat) (shrink : Bool) (hp : shrink = true → q.count ≤ n) :
-    Inv c (q.ensureSizeAux c n false extra shrink) ∧ (q.ensureSizeAux c n false extra shrink).abs c = q.abs c ∧
+/-- `EnsureSize(n, false, extra, allowShrink)` never changes the content and (without shrink) leaves room for
+    `n` items — for every `n` (no hypothesis since the fix 97f299d of findings C16-D1/D2). -/
+theorem reserve_id (q : Ring α) (h : Good c q) (n extra : Nat) (shrink : Bool) :
+    Good c (q.ensureSizeAux c n false extra shrink) ∧ (q.ensureSizeAux c n false extra shrink).abs c = q.abs c ∧
     (shrink = false → n ≤ (q.ensureSizeAux c n false extra shrink).size) := by
-  have := ensure_nosn c q h n extra shrink hp
-  exact ⟨this.1, this.2.1, this.2.2.2⟩
+  have := ensure_nosn c q h.1 h.2 n extra shrink
+  exact ⟨⟨this.1, this.2.2.2.2⟩, this.2.1, this.2.2.2.1⟩
+
+/-- `EnsureSize(n, true, extra, allowShrink)` on every path (reallocation to the heap or back into the inline
+    buffer, growth in place, shrinking, shrink guard): the content becomes the old content cut to `n` items or
+    padded with DEFAULT items — never with old ones (findings F22, C16-D1, C16-D2 cannot return). -/
+theorem set_size_exact (q : Ring α) (h : Good c q) (n extra : Nat) (shrink : Bool) :
+    Good c (q.ensureSizeAux c n true extra shrink) ∧
+    (q.ensureSizeAux c n true extra shrink).abs c =
+      (if n > q.count then q.abs c ++ List.replicate (n - q.count) c.dflt else (q.abs c).take n) := by
+  obtain ⟨e1, e2, e3, _⟩ := ensure_spec c q h.1 h.2 n true extra shrink
+  refine ⟨⟨e1, e3⟩, ?_⟩
+  rw [e2]; simp [Spec.ensureSize]
 
 /-- `Normalize()` is the identity on the content and leaves the items contiguous.
     (`_partial`: the already-contiguous case and the rotation branch `2*count > size`; the copy branch
@@ -101,21 +125,12 @@ theorem normalize_id_partial (q : Ring α) (h : Inv c q) (hb : q.isNormalized = 
     Inv c (q.normalize c) ∧ (q.normalize c).abs c = q.abs c ∧ (q.normalize c).isNormalized = true :=
   normalize_rot c q h hb
 
-/-- Owning item types (`IsPerItemClearNecessary()`): no stale item survives outside the window — a fresh
-    Queue is clean, removal at either end resets the vacated slot, writing a visible item touches nothing else.
-    (`_partial`: these three operation kinds.) -/
-theorem no_stale_partial (hcl : c.clear = true) (q : Ring α) (h : Inv c q) (hC : Clean c q) :
-    Clean c (Ring.empty c) ∧ Clean c (q.removeHead c).1 ∧ Clean c (q.removeTail c).1 ∧
-    (∀ i v, i < q.count → Clean c (q.put i v)) :=
-  ⟨clean_empty c hcl, clean_removeHead c hcl q h hC, clean_removeTail c hcl q h hC, fun i v hi => clean_put c q h hC i hi v⟩
-
-/-- …and therefore growing in place with `EnsureSize(n, true)` shows default items, never old ones
-    (the shape of the fixed defect F22, here for owning item types). -/
-theorem grow_shows_defaults (hcl : c.clear = true) (q : Ring α) (h : Inv c q) (hC : Clean c q) (n : Nat)
-    (hk : q.kind ≠ .null) (hn : n ≤ q.size) (hg : q.count < n) :
-    (q.ensureSizeAux c n true 0 false).abs c = q.abs c ++ List.replicate (n - q.count) c.dflt := by
-  have := ensure_grow_inplace_clean c hcl q h hC n hk hn hg
-  simpa [Spec.ensureSize, hg] using this
+/-- Owning item types (`IsPerItemClearNecessary()`): no stale item survives outside the window, whatever
+    (proved) operation is applied — vacated slots are reset, new arrays and the idle inline buffer are clean.
+    (`_partial`: the 15 op kinds of `Op`.) -/
+theorem no_stale_partial (hcl : c.clear = true) (q : Ring α) (h : Inv c q) (hC : Clean c q) (op : Op α) :
+    Clean c (Ring.empty c) ∧ Clean c (q.step c op).1 :=
+  ⟨clean_empty c hcl, (step_refines c q ⟨h, fun _ => hC⟩ op).1.2 hcl⟩
 
 /-! Non-vacuity: a concrete history drives a Queue with inline capacity 3 through a reallocation and a
 wrapped window; the hypotheses of the theorems above are met by reachable states. -/
@@ -124,9 +139,14 @@ def cfgI : ItemCfg Nat := { dflt := 0, junk := 77, clear := false, moves := fals
 def cfgC : ItemCfg Nat := { dflt := 0, junk := 77, clear := true, moves := true, sq := 3 }
 def hist : List (Op Nat) :=
   [.addTail 1, .addTail 2, .addHead 3, .addTail 4, .removeHead, .replaceItemAt 0 9, .removeTail, .addHead 5, .addHead 6, .getItemAt 7, .removeTail]
+def hist2 : List (Op Nat) :=
+  [.addTailMulti [1, 2, 3, 4, 5], .removeHeadMulti 2, .addHeadMulti [8, 9], .swap 0 4, .ensureSize 7 true 0 false,
+   .ensureSize 2 true 0 true, .removeTailMulti 1, .copyFrom [4, 4], .swap 5 0]
 
 example : ((Ring.empty cfgI).exec cfgI hist).1.abs cfgI = [6, 5, 9] := by decide
-example : (Spec.exec ([] : List Nat) hist).1 = [6, 5, 9] := by decide
+example : (Spec.exec 0 77 ([] : List Nat) hist).1 = [6, 5, 9] := by decide
+example : ((Ring.empty cfgC).exec cfgC hist2).1.abs cfgC = [4, 4] ∧ (Spec.exec 0 77 ([] : List Nat) hist2).1 = [4, 4] ∧
+    ((Ring.empty cfgC).exec cfgC (hist2.take 6)).1.abs cfgC = [5, 9] ∧ ((Ring.empty cfgC).exec cfgC hist2).2.getLast? = some Res.err := by decide
 -- the window is wrapped (head > tail) and the queue is more than half full: the rotation branch of Normalize applies
 example : let q := ((Ring.empty cfgI).exec cfgI (hist ++ [.addHead 7, .addHead 8, .addHead 10])).1
     q.isNormalized = false ∧ ¬ (q.count * 2 ≤ q.size) ∧ q.kind = .heap := by decide
